@@ -1,5 +1,6 @@
 import QV.Model.Decopt
 import QV.Proofs.Decopt
+import QV.Proofs.Decopt2
 /-!
 # C12 – The circuit boolean optimizer returns an equivalent, no larger circuit
 
@@ -280,5 +281,37 @@ theorem splice_rename_violates : ¬ SameUnitary 2 [] swap01 := by
   have := h Bool _ hl (fun b => b == [true, false]) [false, true] rfl
   revert this
   decide
+
+/-! ## the shape of the accepted splices (added after `CompilerInv`/`CompilerSem` and the `renamed` guard) -/
+
+/-- **xonly_splice_ok**: for every section of a decompilation, every sound kernel, every
+meaning-preserving simplifier: if the simplified definitions are all `q = q` or `q = ~q` and the
+re-synthesised gates are the X gates of the self-negations (`xonly`, decidable), the splice is
+`SectionOK` -/
+theorem xonly_splice_ok (simp : BExp → BExp) (hs : SimpSound simp) (K : Kernel) (hK : K.Sound)
+    (K4 : Kernel4) (hK4 : K4.Sound) (q : Quirks) (n : Nat) (gs : List AGate) (secs : List Section)
+    (hdec : decompile q K n gs = .ok secs) (s : Section) (hmem : s ∈ secs) (new : List AGate)
+    (hx : xonly n (simplifySection simp K4 s) new = true) : SectionOK n s.gates new :=
+  xonly_ok hK q n s.gates s.exps (decompile_exps hdec s hmem) (customSimplify simp K4)
+    (fun ρ e => customSimplify_eval hK4 hs ρ e) new hx
+
+/-- **C12_xonly_partial** (the property per run, under the decidable shape predicate): for every
+circuit, simplifier, ancilla choices and quirk setting, a run all of whose accepted splices are
+of the `xonly` shape (`xonlyRun = true`, checked by the harness on every case) satisfies the
+property.  `accepted_xonly` below discharges the hypothesis for the repaired model. -/
+theorem C12_xonly_partial (simp : BExp → BExp) (hs : SimpSound simp) (K : Kernel) (hK : K.Sound)
+    (K4 : Kernel4) (hK4 : K4.Sound) (q : Quirks) (choices : Section → List Nat) (n : Nat)
+    (gs out : List AGate) (secs : List Section) (hwf : ∀ g ∈ gs, g.wires.Nodup)
+    (hdec : decompile q K n gs = .ok secs)
+    (hx : xonlyRun q n (simplifySection simp K4) (resynSection n (simplifySection simp K4) choices) secs = true)
+    (h : optimize q K K4 simp choices n gs = .ok out) : Holds n gs out := by
+  unfold optimize at h
+  refine ⟨splice_equiv q K n _ gs out secs hwf hdec ?_ h, no_larger q K n _ gs out h,
+    same_qubits q K n _ gs out h⟩
+  intro s hmem r hr ha
+  have := List.all_eq_true.mp hx s hmem
+  rw [hr] at this
+  simp only [ha, Bool.not_true, Bool.false_or] at this
+  exact xonly_splice_ok simp hs K hK K4 hK4 q n gs secs hdec s hmem r.gates this
 
 end QV.C12
